@@ -11,7 +11,7 @@ package pool
 //@   trusted
 //@   requires [C01:nonneg] 0 <= size
 //@   modifies nothing
-//@   ensures len(b) == size && cap(b) >= size && fresh(b)
+//@   ensures len(b) == size && cap(b) >= size && fresh(b) && rootObj(b)
 
 //@ func ReleaseBuf(b Buffer)
 //@   trusted
